@@ -51,13 +51,27 @@ func WithDebug(f func(format string, arg ...any)) Option {
 // after New returns.
 func NewConn(ctx context.Context, conn net.Conn, options ...Option) (outConn *Conn, err error) {
 	defer func() { convertErrorsToAlerts(conn, err) }()
+	// The watcher interrupts the read of the first ClientHello when ctx ends.
+	// It is stopped, and waited for, before NewConn returns so that ctx has no
+	// effect on conn afterwards.
 	done := make(chan struct{})
-	defer close(done)
+	exited := make(chan struct{})
+	var fired bool
 	go func() {
+		defer close(exited)
 		select {
 		case <-done:
 		case <-ctx.Done():
+			fired = true
 			conn.SetDeadline(time.Now())
+		}
+	}()
+	defer func() {
+		close(done)
+		<-exited
+		if fired && err == nil {
+			// The deadline was set after the ClientHello was read.
+			outConn, err = nil, context.Cause(ctx)
 		}
 	}()
 	record, err := readRecord(conn)
